@@ -48,6 +48,9 @@ MANIFEST = {
             "the identifiers Global, A, B next to sibling instances of other identifiers with other rates / "
             "strengths and with MutationRate / MutationStrength adapted through the state: each instance must obey "
             "the state of its own identifier (rate 0 leaves everything unchanged, invalid own rate / strength errs, "
+            "also when an EARLIER instance of the same identifier with another rate / strength was initialised on the same "
+            "state before it -- in the same scope or in an enclosing one, the executed instance then running in a child "
+            "scope: its own init re-establishes its own parameters -- "
             "UniformMutation moves at most its own bound) and the parameter states read back must be the modelled "
             "ones. Parameter values are swept to the ends of their documented ranges - deviations / bounds exactly 0, "
             "f64::MIN_POSITIVE, 1e-300, ordinary, 1e300, 1e308 and f64::MAX (given to the constructor, to siblings, or "
@@ -279,7 +282,10 @@ def run(ctx):
                                   and r["res"]["reg"][["Global", "A", "B"].index(r["act"]["id"])][0] in (1, 2))
     # identifier coverage: an instance under a non-default identifier next to a Global sibling whose rate is of
     # another class; an adapted instance
-    ids = {"sib": collections.Counter(), "adapt": collections.Counter(), "sib_strength": collections.Counter()}
+    # ... and an EARLIER instance under the executed instance's own identifier (same scope: "prior", enclosing scope:
+    # "prior_up") whose rate mutates while the executed instance was built with rate 0 and never adapted
+    ids = {"sib": collections.Counter(), "adapt": collections.Counter(), "sib_strength": collections.Counter(),
+           "prior": collections.Counter(), "prior_up": collections.Counter()}
     for r in comps:
         a = r["act"]
         if r["res"]["k"] != "ok":
@@ -293,6 +299,10 @@ def run(ctx):
             ids["sib_strength"][a["c"]] += 1
         if any(ad["id"] == a["id"] for ad in a["adapt"]):
             ids["adapt"][a["c"]] += 1
+        elif a["pr"] == 0:
+            for s in a["sibs"]:
+                if s["id"] == a["id"] and s["pr"] in (1, 2):
+                    ids["prior_up" if s["up"] else "prior"][a["c"]] += 1
     # population shapes of the crossovers: an identical adjacent pair of parents (pin rows are tags / labels, so
     # equal rows = bit-identical parents), a pair of parents of unequal length (in both orders)
     shapes = collections.Counter()
